@@ -106,7 +106,7 @@ class TlcResult:
     def coverage(self):
         """per-action distinct-state counts from `-coverage` output: {action: (count, distinct)}"""
         cov = {}
-        for m in re.finditer(r"<(\w+) line \d+, col \d+ to line \d+, col \d+ of module (\w+)>: (\d+):(\d+)", self.out):
+        for m in re.finditer(r"<(\w+) line \d+, col \d+ to line \d+, col \d+ of module (\w+)(?: \([\d ]+\))?>: (\d+):(\d+)", self.out):
             cov[m.group(2) + "!" + m.group(1)] = (int(m.group(3)), int(m.group(4)))
         return cov
 
